@@ -500,7 +500,9 @@ def buffer_layout_semantics(ctx, rep, rule: str, copies) -> None:
                     heapq.heappush(heap, (load + a, r))
                     want[idx] = (a, r)
                 try:
-                    got = ST.outcome(repo, fi, ci, lambda sim, G=G, sizes=sizes: (SimpleNamespace(_is_self=True, _group_size=G, _dist_group_size=G), [tuple(sizes)], {}))
+                    # arguments are bound by role, not position: a copy that takes the group size as a parameter gets it
+                    extra = {p_: G for p_ in fi.params if "group" in p_ and "size" in p_}
+                    got = ST.outcome(repo, fi, ci, lambda sim, G=G, sizes=sizes, extra=extra: (SimpleNamespace(_is_self=True, _group_size=G, _dist_group_size=G), [tuple(sizes)], dict(extra)))
                 except Unsupported as u:
                     raise AnalysisError(f"{rule}: {fi.qual} outside the interpreted sub-language: {u}") from u
                 if not (got[0] == "ok" and got[1] == tuple(want)) and len(bad) < 2:
